@@ -3,6 +3,59 @@ from fv import common, design_mc, design_trace
 from fv.report import Report
 
 
+def order_theorem(rep, maxcomps, maxwidth):
+    """DesignOrder.tla: the Kronecker loops of get_interaction_matrix and the itertools.product of the
+    labels enumerate the same index tuples in the same order (TLC), and the real functions follow
+    the modelled loops (replay with prime-valued columns: a product identifies its index tuple)."""
+    import itertools
+    import os
+    import shutil
+    from functools import reduce
+
+    import numpy as np
+
+    from fv import tlc
+    from formulae.utils import get_interaction_matrix
+
+    tmp = tlc.scratch_dir("fv_c04o_")
+    try:
+        out = os.path.join(tmp, "o.ndjson")
+        cfg = common.write_cfg(os.path.join(tmp, "c.cfg"), constants={"MaxComps": maxcomps, "MaxWidth": maxwidth, "DoExport": True}, invariants=["SameOrder", "AllDistinct", "GroupOrder", "Export"])
+        res = tlc.run_tlc("DesignOrder", cfg=cfg, env={"FV_OUT": out}, workers=4, heap="4g", timeout=900, allow_violation=True)
+        rep.add_tlc(f"DesignOrder comps<={maxcomps} width<={maxwidth}", res)
+        if res.violated:
+            rep.violation({"clause": "spec_level:" + ",".join(res.violated), "site": "DesignOrder.tla"}, {"tlc_tail": res.out[-2000:]})
+            return
+        cases = tlc.read_export(out)
+    finally:
+        shutil.rmtree(tmp, ignore_errors=True)
+    primes = [2, 3, 5, 7, 11, 13, 17, 19, 23, 29, 31, 37, 41, 43, 47, 53]
+    for c in cases:
+        rep.cov["evaluations"] += 1
+        widths = c["widths"]
+        comps, table, k = [], {}, 0
+        for ci, w in enumerate(widths):
+            cols = []
+            for j in range(w):
+                table[primes[k]] = (ci, j + 1)
+                cols.append(np.full(2, primes[k], dtype=np.int64))
+                k += 1
+            comps.append(np.column_stack(cols))
+        data = reduce(get_interaction_matrix, comps) if len(comps) > 1 else comps[0]
+        got = []
+        for col in np.asarray(data).T:
+            v, tup = int(col[0]), [0] * len(widths)
+            for p, (ci, j) in table.items():
+                if v % p == 0:
+                    tup[ci] = j
+            got.append(tup)
+        labels = [list(t) for t in itertools.product(*[range(1, w + 1) for w in widths])]
+        if got != [list(t) for t in c["data"]]:
+            rep.violation({"clause": "interaction_columns_not_in_modelled_order", "site": "formulae.utils.get_interaction_matrix"}, {"widths": widths, "got": got, "want": c["data"]})
+        if labels != [list(t) for t in c["labels"]]:
+            rep.violation({"clause": "HARNESS_itertools_product_order"}, {"widths": widths})
+
+
 def main(tier, seed):
     common.use_repo()
     rep = Report("C04", tier, seed)
@@ -17,6 +70,7 @@ def main(tier, seed):
         "builds that raise are counted, not judged here (C03/C05 decide coding failures)",
         "sum-coded pieces are decided by C13",
     ]
+    order_theorem(rep, 4, 4 if tier == "quick" else 5)
     if tier == "quick":
         design_mc.run(rep, "C04", seed, n=3, nf=3, ng=2)
         design_trace.run(rep, "C04", 1500, seed, {"nmax": 16})
